@@ -132,6 +132,27 @@ def check_traj(ctx, rows, case, extra=True, hit=None):
             continue
         record("find_index_for_time_point.strict", [q, dev],
                call(lambda: helpers.find_index_for_time_point(hit, q, True, dev)), ("ok", scan_first(times, q)), inside)
+        # the other spellings of the same call: the documented defaults are 'first row at or after' and a deviation of 1 s
+        form = ["time_only", "deviation_only", "keywords", "keywords_default_dev", "nearest_default_dev"][int((q + 3 * dev) * 7919) % 5]
+        ctx.count("time_call_forms_" + form)
+        if form == "time_only":
+            record("find_index_for_time_point.strict", [q, "(defaults)"], call(lambda: helpers.find_index_for_time_point(hit, q)),
+                   ("ok", scan_first(times, q)), inside)
+        elif form == "deviation_only":
+            record("find_index_for_time_point.strict", [q, dev, "(strictly_bigger_or_equal omitted)"],
+                   call(lambda: helpers.find_index_for_time_point(hit, q, max_time_deviation_in_seconds=dev)), ("ok", scan_first(times, q)), inside)
+        elif form == "keywords":
+            record("find_index_for_time_point.strict", [q, dev, "(keywords)"],
+                   call(lambda: helpers.find_index_for_time_point(shot=hit, time=q, max_time_deviation_in_seconds=dev, strictly_bigger_or_equal=True)),
+                   ("ok", scan_first(times, q)), inside)
+        elif form == "keywords_default_dev":
+            record("find_index_for_time_point.strict", [q, "(strictly_bigger_or_equal=True only)"],
+                   call(lambda: helpers.find_index_for_time_point(hit, q, strictly_bigger_or_equal=True)), ("ok", scan_first(times, q)), inside)
+        elif times:
+            best1 = min(abs(t - q) for t in times)
+            want1 = next(i for i, t in enumerate(times) if abs(t - q) == best1) if best1 <= 1 else -1
+            record("find_index_for_time_point.nearest", [q, "(default deviation 1 s)"],
+                   call(lambda: helpers.find_index_for_time_point(hit, q, False)), ("ok", want1), inside)
         want = scan_nearest(times, q, dev)
         if n >= 2 and want >= 0:
             dmin = abs(times[want] - q)
